@@ -274,7 +274,7 @@ def gen_boxes(rng, s, count):
             q2.append(x1)
         b = rng.randrange(nd)
         if cls == "partly-out":
-            q2[b] = hi[b] + cell[b] * F(1, 2)
+            q2[b] = hi[b] + cell[b] * rng.choice([F(1, 2), 1, 1, 2])
         elif cls == "out":
             q1[b], q2[b] = hi[b] + cell[b], hi[b] + 3 * cell[b]
         elif cls == "partly-out-lo":       # sticks out below by half a cell / by several cells
@@ -358,6 +358,32 @@ def gen_ops(rng, s, tier):
             ("linear_ramp", {}),
         ])
         cases.append(dict(kind="padkw", src=s, pw=pw, axes=sorted(axes), mode=md, kw=kw, cls="kw"))
+    lo_, hi_, cell_ = geom(s)
+    for _ in range(2 if tier == "quick" else 4):
+        # a new mesh inside the source region (whole region, cell-aligned or arbitrary box) initialised from the field
+        q1, q2, nn = [], [], []
+        for a in range(nd):
+            how = rng.choice(["whole", "aligned", "arbitrary"])
+            i0 = rng.randint(0, n[a] - 1)
+            i1 = rng.randint(i0 + 1, n[a])
+            if how == "whole":
+                x0, x1 = lo_[a], hi_[a]
+            elif how == "aligned":
+                x0, x1 = lo_[a] + i0 * cell_[a], lo_[a] + i1 * cell_[a]
+            else:
+                x0 = lo_[a] + (i0 + F(rng.randint(0, 7), 8)) * cell_[a]
+                x1 = lo_[a] + (i1 - F(rng.randint(0, 6), 8)) * cell_[a]
+                if x1 <= x0:
+                    x1 = x0 + cell_[a] / 8
+            q1.append(x0)
+            q2.append(x1)
+            k_ = max(1, round((x1 - x0) / cell_[a]))
+            nn.append(rng.choice([1, 2, 3, 4, 6, k_, max(1, k_ // 2), 2 * k_]))
+        for a in range(nd):
+            while (((q2[a] - q1[a]) / nn[a]).denominator & (((q2[a] - q1[a]) / nn[a]).denominator - 1)) != 0:
+                nn[a] += 1
+        if math.prod(nn) <= 2 * MAXCELLS:
+            cases.append(dict(kind="fromfield", src=s, q1=[S(x) for x in q1], q2=[S(x) for x in q2], nn=nn, cls="fromfield"))
     for _ in range(3 if tier == "quick" else 6):
         nn = [rng.randint(1, 9) for _ in range(nd)]
         if math.prod(nn) > 2 * MAXCELLS:
@@ -376,6 +402,21 @@ def gen_ops(rng, s, tier):
         elif r < 0.4:
             nn = list(n)
             cls = "same"
+        elif r < 0.75:
+            # target centres exactly on source cell boundaries (coarsening 8 -> 4, 6 -> 3, 12 -> 2, 4 -> 6 ...)
+            nn = []
+            for k in n:
+                ties = [x for x in range(1, 10) if any(((2 * j + 1) * k) % (2 * x) == 0 for j in range(x))]
+                nn.append(rng.choice(ties) if ties else rng.randint(1, 9))
+            cls = "tie"
+        if cls not in ("nonpositive", "wrong-length"):
+            # a target centre that lies exactly on a source cell boundary is only meaningful in the exact regime
+            # when the target cell size is representable (power-of-two denominator): otherwise move to the next n
+            for a in range(nd):
+                e_a = hi_[a] - lo_[a]
+                while (any(((2 * j + 1) * n[a]) % (2 * nn[a]) == 0 for j in range(nn[a]))
+                       and ((e_a / nn[a]).denominator & ((e_a / nn[a]).denominator - 1)) != 0):
+                    nn[a] += 1
         cases.append(dict(kind="resample", src=s, nn=nn, cls=cls, nt=rng.choice(["tuple", "list", "nparray", "npscalars"])))
     return cases
 
@@ -460,6 +501,8 @@ def gen_stateful(rng, tier):
     if flavour == "region":
         kinds = [k for k in kinds if k not in ("translate", "scale")] + [rng.choice(["translate", "scale"])]
         rng.shuffle(kinds)
+        if "rot" in kinds:
+            kinds = [k for k in kinds if k != "rot"] + ["rot"]
     if flavour == "shared":
         # the region is moved through ANOTHER mesh built on the same Region object (the mesh of a resample
         # result shares it): r = f.resample(n); r.mesh.translate / scale(..., inplace=True)
@@ -1023,7 +1066,11 @@ def _run_case(c, f):
             # own; only a box that misses the mesh region altogether is unambiguously "outside"
             disjoint = any(y < l - 2 * tau(s, a_, y) or x > h + 2 * tau(s, a_, x)
                            for a_, (x, y, l, h) in enumerate(zip(blo, bhi, lo, hi)))
-            if disjoint and st == "ok":
+            # ... and a box whose outermost cell would have its centre outside the mesh cannot be a set of
+            # mesh cells either (sticking out by clearly more than half a cell, above or below)
+            sticks = any(y - cc / 2 > h + 2 * tau(s, a_, y) + cc / 64 or x + cc / 2 < l - 2 * tau(s, a_, x) - cc / 64
+                         for a_, (x, y, l, h, cc) in enumerate(zip(blo, bhi, lo, hi, cell)))
+            if (disjoint or sticks) and st == "ok":
                 rec["oracle"].append("outside-request-accepted")
             coq_o = "None" if o is None else "(Some " + g.lst([f"({g.z(x)}, {g.z(y)})" for x, y in o]) + ")"
             rec.update(obs=dict(slices=o if o is not None else sl),
@@ -1141,6 +1188,33 @@ def _run_case(c, f):
                    key=f'pad/{nd}/{md}/{c["cls"]}/{stm}{stf}/{max(max(w) for w in pw)}', size=size)
         return rec
 
+    if kind == "fromfield":
+        q1, q2, nn = [F(x) for x in c["q1"]], [F(x) for x in c["q2"]], c["nn"]
+
+        def make():
+            m2 = df.Mesh(region=df.Region(p1=fls(c["q1"]), p2=fls(c["q2"]), dims=s["dims"]), n=nn)
+            return df.Field(m2, nvdim=f.nvdim, value=f, dtype=f.array.dtype,
+                            valid=df.Field(f.mesh, nvdim=1, value=f.valid, dtype=bool))
+        stf, rf = attempt(make)
+        if stf == "ok":
+            rec.setdefault("_results", []).append(rf)
+            c2 = [(y - x) / k for x, y, k in zip(q1, q2, nn)]
+            bad = False
+            for j in itertools.product(*[range(k) for k in nn]):
+                i = tuple(min(math.floor((q1[a] + (j[a] + F(1, 2)) * c2[a] - lo[a]) / cell[a]), n[a] - 1)
+                          for a in range(nd))
+                if not (aeq(rf.array[j], arr[i]) and bool(rf.valid[j]) == bool(valid[i])):
+                    bad = True
+            if bad:
+                rec["oracle"].append("field-from-field-not-the-containing-cell")
+            pointwise(rec, f, rf, sample_points(rf.mesh, per_cell=(F(1, 2),), limit=200))
+        else:
+            rec["oracle"].append("inside-request-rejected")
+        rec["oracle"] = sorted(set(rec["oracle"]))
+        rec.update(obs=dict(field=field_obs(rf) if stf == "ok" else rf), coq=None,
+                   key=f'fromfield/{nd}/{stf}/{hash(tuple(nn)) % 7}', size=size)
+        return rec
+
     if kind == "padkw":
         pw, md = c["pw"], c["mode"]
         kw = {k: (tuple(v) if isinstance(v, list) else (fl(v) if isinstance(v, str) and "/" in v else v))
@@ -1199,21 +1273,16 @@ def _run_case(c, f):
                 c2 = [(h - l) / k for l, h, k in zip(lo, hi, nn)]
                 bad = False
                 for j in itertools.product(*[range(k) for k in nn]):
-                    cands = []
-                    for a in range(nd):
-                        q = lo[a] + (j[a] + F(1, 2)) * c2[a]
-                        dist = [abs(lo[a] + (i + F(1, 2)) * cell[a] - q) for i in range(n[a])]
-                        dm = min(dist)
-                        cands.append([i for i, dd in enumerate(dist) if dd == dm])
-                    if not any(aeq(rf.array[j], arr[i]) and bool(rf.valid[j]) == bool(valid[i])
-                               for i in itertools.product(*cands)):
+                    # the source cell that CONTAINS the new centre (half-open cells, lower face inclusive: a centre
+                    # exactly on a source cell boundary belongs to the cell above it, as point2index says)
+                    i = tuple(min(math.floor((lo[a] + (j[a] + F(1, 2)) * c2[a] - lo[a]) / cell[a]), n[a] - 1)
+                              for a in range(nd))
+                    if not (aeq(rf.array[j], arr[i]) and bool(rf.valid[j]) == bool(valid[i])):
                         bad = True
                 if bad:
                     rec["oracle"].append("resample-not-nearest-cell")
-                # away from ties the value at a new centre is the source's value at that point
-                pts = [q for q in sample_points(mm, per_cell=(F(1, 2),))
-                       if all(((F(x) - l) / cc) != math.floor((F(x) - l) / cc) for x, l, cc in zip(q, lo, cell))]
-                pointwise(rec, f, rf, pts)
+                # the value at every new centre is the source's value at that point
+                pointwise(rec, f, rf, sample_points(mm, per_cell=(F(1, 2),), limit=400))
         rec["oracle"] = sorted(set(rec["oracle"]))
         rec.update(obs=dict(field=of if of else rf),
                    coq=f'CResample {src_coq(s)} {g.zl(nn)} {opt(of, obsfield_coq)}',
